@@ -73,7 +73,7 @@ def runcopy(name, props):
         if a.returncode:
             print("patch does not apply:", a.stderr, a.stdout); return
         for p in props:
-            env = dict(os.environ, PYVC_REPO=tmp, PYVC_EVIDENCE_DIR=os.path.join(tmp, "evidence"))
+            env = dict(os.environ, PYVC_REPO=tmp, PYVC_EVIDENCE_DIR=os.path.join(tmp, "evidence"), PYVC_REPLAY_DIR=os.path.join(tmp, "replays"))
             r = sh("./check %s --tier quick" % p, cwd="/verif", env=env)
             lines = r.stdout.strip().splitlines()
             fails = [l.strip()[len("failed obligation: "):] for l in lines if l.strip().startswith("failed obligation")]
